@@ -1301,7 +1301,7 @@ func doExtIDs(n int) {
 		h := heightsAround()[rng.Intn(8)]
 		e := signEntry(content, ss, salt, ts)
 		label := "valid"
-		switch rng.Intn(28) {
+		switch rng.Intn(30) {
 		case 0, 1, 2, 3, 4:
 		case 5: // salt at the window edges
 			d := []int64{43200, 43201, -43200, -43201, 43199, -43199, 0}[rng.Intn(7)]
@@ -1436,6 +1436,19 @@ func doExtIDs(n int) {
 				e.extids[2] = ed25519.Sign(factom.FsAddress(seedN("ed", 0)).PrivateKey(), composeMsg(0, []byte(salt), e.chain, content))
 				label = "unhashed-message"
 			}
+		case 28, 29: // two (or three) different input addresses, signed by the key of the FIRST one only
+			n2 := 2 + rng.Intn(2)
+			perm2 := rng.Perm(10)
+			ss = nil
+			for j := 0; j < n2; j++ {
+				ss = append(ss, edSigner(perm2[j]))
+			}
+			if rng.Intn(3) == 0 {
+				ss[0] = ethSigner(rng.Intn(4))
+			}
+			content = contentFor(ss)
+			e = signEntry(content, ss[:1], salt, ts)
+			label = "first-input-signs-alone"
 		case 24, 25: // JSON white space added to the content after signing: the same batch for a JSON reader, another
 			// byte string (and another entry hash) for the chain -- the signature covers the exact bytes
 			emit(e.clone(), h, "valid")
